@@ -209,6 +209,10 @@ class HierDictDocument(DictDocument):
                     retval = self._doc_to_object(ctx, cls, inst, validator)
 
             else:
+                if isinstance(inst, (dict, list, tuple)):
+                    # a map or a sequence can't denote a value of a simple type
+                    raise ValidationError([key, inst])
+
                 if cls_attrs.empty_is_none and inst in (u'', b''):
                     inst = None
 
@@ -218,7 +222,12 @@ class HierDictDocument(DictDocument):
                     raise ValidationError([key, inst])
 
                 if issubclass(cls, (ByteArray, Uuid)):
-                    retval = self.from_serstr(cls, inst, self.binary_encoding)
+                    try:
+                        retval = self.from_serstr(cls, inst,
+                                                           self.binary_encoding)
+                    except (TypeError, ValueError):
+                        # the value is of a kind this type can't be built from
+                        raise ValidationError([key, inst])
 
                 elif issubclass(cls, Unicode):
                     if isinstance(inst, bytearray):
@@ -246,7 +255,12 @@ class HierDictDocument(DictDocument):
                         retval = inst
 
                 else:
-                    retval = self.from_serstr(cls, inst)
+                    try:
+                        retval = self.from_serstr(cls, inst)
+                    except (TypeError, ValueError):
+                        # the value is of a kind this type can't be built from
+                        # (e.g. a number or a boolean where date text is due)
+                        raise ValidationError([key, inst])
 
         # validate native type
         if validator is self.SOFT_VALIDATION:
@@ -364,6 +378,10 @@ class HierDictDocument(DictDocument):
                 subinst = getattr(inst, k, None)
                 if subinst is None:
                     subinst = []
+
+                if not isinstance(v, (list, tuple)):
+                    raise ValidationError([k, v], "Member %r must be a "
+                                                        "sequence, got: %%r" % k)
 
                 for a in v:
                     subinst.append(
